@@ -55,6 +55,11 @@ impl Lab for String {
         ["kappa", "alpha", "mu", "beta", "zeta", "Eta", "iota"][c % 7].to_string()
     }
 }
+impl Lab for Option<String> {
+    fn of(c: usize) -> Option<String> {
+        [Some("kappa"), None, Some("mu"), Some(""), Some("zeta"), Some("Eta"), Some("iota")][c % 7].map(|s| s.to_string())
+    }
+}
 impl Lab for bool {
     const TREE_K: usize = 2;
     fn of(c: usize) -> bool {
@@ -939,6 +944,7 @@ fn register_trees(r: &mut Registry) {
     let c20 = Some((Kind::Claim, false));
     r.model::<DecisionTree<f64, usize>>("tree_model_usize", K, T_M, c20, build_tree::<usize>, fp_tree_model::<usize>, Some(|a, b| a == b));
     r.model::<DecisionTree<f64, String>>("tree_model_string", K, T_M, c20, build_tree::<String>, fp_tree_model::<String>, Some(|a, b| a == b));
+    r.model::<DecisionTree<f64, Option<String>>>("tree_model_option_string", K, T_M, None, build_tree::<Option<String>>, fp_tree_model::<Option<String>>, Some(|a, b| a == b));
     r.model::<DecisionTree<f64, bool>>("tree_model_bool", K, T_M, c20, build_tree::<bool>, fp_tree_model::<bool>, Some(|a, b| a == b));
     r.model::<DecisionTree<f64, String>>("tree_model_entropy_string", K, T_M, c20, build_tree_entropy::<String>, fp_tree_model::<String>, Some(|a, b| a == b));
     r.model::<DecisionTree<f64, usize>>("tree_model_clean", K, T_M, c20, build_tree_clean, fp_tree_clean, Some(|a, b| a == b));
@@ -1198,6 +1204,51 @@ macro_rules! nb_kind {
 nb_kind!(gnb, GaussianNb, GaussianNbValidParams, var_smoothing, 1e-6, nb_gauss_rows, nb_gauss_queries);
 nb_kind!(mnb, MultinomialNb, MultinomialNbValidParams, alpha, 0.5, nb_count_rows, nb_count_queries);
 
+/// weighted (non-integral) counts, as after tf-idf: the persisted per-class feature totals are
+/// not whole numbers.  The fingerprint also continues training the value it is given with one
+/// more batch — what a service does with a model it restored.
+fn mnb_frac(x: &Array2<f64>) -> Array2<f64> {
+    x.mapv(|v| v * 0.3 + 0.05)
+}
+fn build_mnb_fractional(p: &P) -> MultinomialNb<f64, usize> {
+    let (x, y) = nb_select(&nb_count_rows(p), true, |g, _| g % 2 == 0);
+    MultinomialNb::<f64, usize>::params().alpha(0.5).fit(&DatasetBase::new(mnb_frac(&x), labels_of::<usize>(&y))).expect("nb fit")
+}
+fn fp_mnb_fractional(m: &MultinomialNb<f64, usize>, p: &P, f: &mut Fingerprint) {
+    let q = mnb_frac(&mnb::queries::<f64>(p));
+    fp_nb::<f64, usize, _>(m, &q, f);
+    let (x, y) = nb_select(&nb_count_rows(p), true, |g, _| g % 2 == 1);
+    let params = MultinomialNb::<f64, usize>::params().alpha(0.5).check().expect("valid");
+    match params.fit_with(Some(m.clone()), &DatasetBase::new(mnb_frac(&x), labels_of::<usize>(&y))) {
+        Ok(Some(m2)) => {
+            let mut g = Fingerprint::new();
+            fp_nb::<f64, usize, _>(&m2, &q, &mut g);
+            f.extend("continued.", g);
+        }
+        Ok(None) => f.one("continued_none", true),
+        Err(e) => f.err("continued", &e),
+    }
+}
+fn build_gnb_continue(p: &P) -> GaussianNb<f64, usize> {
+    let (x, y) = nb_select(&nb_gauss_rows(p), true, |g, _| g % 2 == 0);
+    GaussianNb::<f64, usize>::params().fit(&DatasetBase::new(x, labels_of::<usize>(&y))).expect("nb fit")
+}
+fn fp_gnb_continue(m: &GaussianNb<f64, usize>, p: &P, f: &mut Fingerprint) {
+    let q = gnb::queries::<f64>(p);
+    fp_nb::<f64, usize, _>(m, &q, f);
+    let (x, y) = nb_select(&nb_gauss_rows(p), true, |g, _| g % 2 == 1);
+    let params = GaussianNb::<f64, usize>::params().check().expect("valid");
+    match params.fit_with(Some(m.clone()), &DatasetBase::new(x, labels_of::<usize>(&y))) {
+        Ok(Some(m2)) => {
+            let mut g = Fingerprint::new();
+            fp_nb::<f64, usize, _>(&m2, &q, &mut g);
+            f.extend("continued.", g);
+        }
+        Ok(None) => f.one("continued_none", true),
+        Err(e) => f.err("continued", &e),
+    }
+}
+
 fn nb_invalid(p: &P) -> Fingerprint {
     let mut f = Fingerprint::new();
     let (x, y) = nb_select(&nb_gauss_rows(p), true, |_, _| true);
@@ -1235,6 +1286,10 @@ fn register_bayes(r: &mut Registry) {
     const T_M: &[&str] = &["MultinomialNb", "MultinomialClassInfo"];
     r.model::<GaussianNb<f64, usize>>("nb_gauss_model_usize", K, T_G, c20, gnb::build::<usize>, gnb::fp_build::<usize>, Some(|a, b| a == b));
     r.model::<GaussianNb<f64, String>>("nb_gauss_model_string", K, T_G, c20, gnb::build::<String>, gnb::fp_build::<String>, Some(|a, b| a == b));
+    r.model::<GaussianNb<f64, Option<String>>>("nb_gauss_model_option_string", K, T_G, None, gnb::build::<Option<String>>, gnb::fp_build::<Option<String>>, Some(|a, b| a == b));
+    r.model::<MultinomialNb<f64, Option<String>>>("nb_multi_model_option_string", K, T_M, None, mnb::build::<Option<String>>, mnb::fp_build::<Option<String>>, Some(|a, b| a == b));
+    r.model::<MultinomialNb<f64, usize>>("nb_multi_model_fractional_continued", K, T_M, c20, build_mnb_fractional, fp_mnb_fractional, Some(|a, b| a == b));
+    r.model::<GaussianNb<f64, usize>>("nb_gauss_model_continued", K, T_G, c20, build_gnb_continue, fp_gnb_continue, Some(|a, b| a == b));
     r.model::<GaussianNb<f64, usize>>("nb_gauss_model_notie", K, T_G, c20, gnb::build_clean, gnb::fp_build::<usize>, Some(|a, b| a == b));
     r.model::<MultinomialNb<f64, usize>>("nb_multi_model_usize", K, T_M, c20, mnb::build::<usize>, mnb::fp_build::<usize>, Some(|a, b| a == b));
     r.model::<MultinomialNb<f64, String>>("nb_multi_model_string", K, T_M, c20, mnb::build::<String>, mnb::fp_build::<String>, Some(|a, b| a == b));
